@@ -97,6 +97,7 @@ def tyS : Bool → Option Ty → TEnv → Expr → Res Ty
       match ta with
       | .arr _ => okW ta
       | .str => .ok .str
+      | .multi _ => okW ta            -- a union of indexable types: the slice has the operand's own (union) type
       | _ => .unsup
   | lp, r, g, .matchE e arms =>
       (tyS lp r g e).bind fun te => (tySArms lp r g arms).bind fun tys =>
